@@ -21,13 +21,13 @@ DRIVER_MODULES = ["PsutilModel.Model.C10Gen", "PsutilModel.Model.C10Front", "Psu
 FINDING_FORMS = "C10-forms-share-cache"
 NEEDS_EXT = True
 TRUSTED = [
-    "C10 model: reminders/reminder_keys of _WrapNumbers are modelled as one total function (0 = absent); cache_info()'s return value is not modelled (only that its body is under the lock); the kernel listing (device, whole disk?, counters) is the input (C09 covers how it is parsed)",
+    "C10 model: two levels — the three dicts of _WrapNumbers as they are (association lists in insertion order, defaultdict reads, KeyError/AssertionError/IndexError branches; cache_info() = their value at the time of the call, the aliasing of the returned dicts is not modelled) and, proved equal to it on every uniform-width history (C10_concrete_refines), the abstract state with reminders as a total function (0 = absent); the kernel listing (device, whole disk?, counters) is the input (C09 covers how it is parsed)",
     "C10 concurrency: bodies of run()/cache_clear() are modelled as load + store under the lock; the raw sample is taken outside the lock (explicit `sample` action: lock order need not be sampling order)",
 ]
 MANIFEST = {
-    "level_text": "Machine-checked Lean 4 proof that the model of the public front ends (per-device and system-wide form, Linux perdisk filter, cache_clear of one or two names) + _WrapNumbers.run/cache_clear refines a history-defined specification for EVERY history (C10_refines, C10_front_refines: any number of wraps, devices appearing/vanishing/reappearing, empty snapshots, cache_clear anywhere, alternating nowrap, both functions and both forms interleaved), that the system-wide form is the field-wise sum of the adjusted per-device tuples (C10_total_is_sum, C10_total_field) and never decreases while no device vanishes (C10_total_monotone; proved counterexample C10_total_drops_when_device_vanishes for the unrestricted statement), with corollaries C10_monotone, C10_value_formula, C10_reappear_fresh, C10_cache_clear_forgets, C10_nowrap_false_raw, C10_names_independent, and that every interleaving of any number of threads equals the serial execution in lock-acquisition order (C10_serialisable, C10_concurrent_refines; counterexample C10_unlocked_not_serialisable). Proved counterexamples for the pre-fix front end (C10_reappear_needs_empty_feed) and for the two forms of disk_io_counters sharing one cache name on Linux (C10_forms_share_history_counterexample, kept for the shared-name configuration sharedCfg: the defect was fixed in /repo by a52899b); for the repaired front end the full statement is proved (C10_present_monotone: after any history, any listings, any number of system-wide calls in between, a disk that stays listed never goes backwards between two perdisk=True calls; instantiated as C10_present_monotone_cfg through the obligation cfg_forms_good). The model is tied to the code by 12 translator facts (empty-snapshot handling, cache names per form, names cleared, wrap comparison, Linux perdisk filter, run/cache_clear/cache_info under the lock) feeding cfg_good / cfg_good_conc / cfg_forms_good, and by a differential run of the real front-end functions against model and specification on generated and exhaustively enumerated histories, including 2-3 real threads whose observed schedule is replayed through the Lean lock model.",
-    "level_note": "Trusted: Lean kernel + {propext, Classical.choice, Quot.sound}; the translator; the correspondence harness; reminders/reminder_keys modelled as a total function (cache_info's value not modelled); uniform tuple width and unique device names per snapshot are hypotheses (true of every platform layer's output); the raw sample is taken outside the lock.",
-    "technique": "Lean 4 refinement proof by induction over histories (invariant of _WrapNumbers) + small-step lock model with serialisability invariant + translator-fed proof obligations + differential correspondence with exhaustive short histories and replayed real-thread schedules",
+    "level_text": "Machine-checked Lean 4 proof that the model of the public front ends (per-device and system-wide form, Linux perdisk filter, cache_clear of one or two names) + _WrapNumbers.run/cache_clear refines a history-defined specification for EVERY history (C10_refines, C10_front_refines: any number of wraps, devices appearing/vanishing/reappearing, empty snapshots, cache_clear anywhere, alternating nowrap, both functions and both forms interleaved), that the system-wide form is the field-wise sum of the adjusted per-device tuples (C10_total_is_sum, C10_total_field) and never decreases while no device vanishes (C10_total_monotone; proved counterexample C10_total_drops_when_device_vanishes for the unrestricted statement), with corollaries C10_monotone, C10_value_formula, C10_reappear_fresh, C10_cache_clear_forgets, C10_nowrap_false_raw, C10_names_independent, and that every interleaving of any number of threads equals the serial execution in lock-acquisition order (C10_serialisable, C10_concurrent_refines; counterexample C10_unlocked_not_serialisable; characterisation C10_lock_order_is_not_sampling_order of the stated limit that the raw sample is taken outside the lock, replayed on two real threads). The three dicts of _WrapNumbers are modelled as they are in the code and proved to refine the abstract model after every history (C10_concrete_refines: same return values, no KeyError/AssertionError), with the invariant reminder_keys = support of reminders stated separately (C10_reminder_keys_support; what-if counterexample C10_reminder_keys_overwrite_counterexample for a set that is assigned instead of added to) and the value of cache_info() characterised from the history alone (C10_cache_info_reflects). Proved counterexamples for the pre-fix front end (C10_reappear_needs_empty_feed) and for the two forms of disk_io_counters sharing one cache name on Linux (C10_forms_share_history_counterexample, kept for the shared-name configuration sharedCfg: the defect was fixed in /repo by a52899b); for the repaired front end the full statement is proved (C10_present_monotone: after any history, any listings, any number of system-wide calls in between, a disk that stays listed never goes backwards between two perdisk=True calls; instantiated as C10_present_monotone_cfg through the obligation cfg_forms_good). The model is tied to the code by 13 translator facts (empty-snapshot handling, cache names per form, names cleared, wrap comparison, Linux perdisk filter, run/cache_clear/cache_info under the lock, reminder_keys only ever added to) feeding cfg_good / cfg_good_conc / cfg_forms_good / cfg_good_dict, and by a differential run of the real front-end functions against model and specification on generated and exhaustively enumerated histories (return values after every step, cache_info() against the concrete-dict model and against the history-defined specification), including 2-3 real threads whose observed schedule is replayed through the Lean lock model.",
+    "level_note": "Trusted: Lean kernel + {propext, Classical.choice, Quot.sound}; the translator; the correspondence harness; the aliasing of the dicts cache_info() returns is not modelled (its value at call time is); uniform tuple width and unique device names per snapshot are hypotheses (true of every platform layer's output); the raw sample is taken outside the lock.",
+    "technique": "Lean 4 refinement proof by induction over histories (invariant of _WrapNumbers) + data refinement from the concrete dicts to the abstract state + small-step lock model with serialisability invariant + translator-fed proof obligations + differential correspondence with exhaustive short histories and replayed real-thread schedules",
     "design_ref": "DESIGN.md §5 C10",
 }
 ASSUMPTIONS = [
@@ -234,14 +234,9 @@ def _rk_accumulates(tree):
         raise NotRecognised("wrap test not found exactly once (without else)")
     body = sorted(extract.unparse(b) for b in tests[0].body)
     want = sorted(["self.reminders[name][remkey] += old_value", "self.reminder_keys[name][key].add(remkey)"])
-    if body == want and len(uses) == 1:
-        return True
-    assigned = [st for st in ast.walk(fn) if isinstance(st, (ast.Assign, ast.AugAssign))
-                and any(isinstance(x, ast.Attribute) and x.attr == "reminder_keys"
-                        for t in (st.targets if isinstance(st, ast.Assign) else [st.target]) for x in ast.walk(t))]
-    if assigned:
-        return False
-    raise NotRecognised("update of reminders / reminder_keys in run() not recognised: %s" % "; ".join(body))
+    # anything else that touches reminder_keys in run() (an assignment as in seeded C10-3, an .add outside the wrap
+    # test, a second use) is not the accumulate-only update the dict-level model transcribes
+    return body == want and len(uses) == 1
 
 
 def facts(snap, F):
@@ -356,13 +351,17 @@ class Impl:
     def info(self):
         """`wrap_numbers.cache_info()` in the driver's canonical form (dict order kept, sets sorted)."""
         try:
-            cache, rems, keys = self.ps._common.wrap_numbers.cache_info()
+            t = self.ps._common.wrap_numbers.cache_info()
+        except Exception as e:  # noqa: BLE001 - an exception is an observable
+            return {"kind": "exc", "exc": type(e).__name__}
+        try:
+            cache, rems, keys = t
             return {"cache": [[n, [[k, [int(x) for x in v]] for k, v in d.items()]] for n, d in cache.items()],
                     "reminders": [[n, [[k, int(i), int(v)] for (k, i), v in d.items()]] for n, d in rems.items()],
                     "keys": [[n, [[k, sorted([p[0], int(p[1])] for p in ps)] for k, ps in d.items()]]
                              for n, d in keys.items()]}
-        except Exception as e:  # noqa: BLE001 - an exception is an observable
-            return {"kind": "exc", "exc": type(e).__name__}
+        except Exception:  # noqa: BLE001 - not (cache, reminders, reminder_keys) of the documented shapes
+            return {"kind": "malformed", "repr": repr(t)[:300]}
 
     def do(self, op):
         """Execute one op; return canonical outcome dict comparable with the driver's."""
@@ -481,7 +480,8 @@ def _norm_info(info):
 def _info_vs_spec(info, spec):
     """None if `cache_info()` shows what the history alone determines (C10_cache_info_reflects), else a reason"""
     if "kind" in info:
-        return "cache_info() raised %s" % info.get("exc")
+        return ("cache_info() raised %s" % info.get("exc") if info["kind"] == "exc" else
+                "cache_info() did not return (cache, reminders, reminder_keys) of the documented shapes")
     want_cache = sorted(spec["cache"])
     if sorted(info["cache"]) != want_cache:
         return "cache != newest nowrap=True snapshot per name"
@@ -841,7 +841,7 @@ def correspond(ctx, res):
         for h in corpus_histories(impl.width):
             hists.append(h)
             tags.append("corpus")
-        n = ctx.n(720, 36000)
+        n = ctx.n(720, 24000)
         for i in range(n):
             fam = FAMILIES[i % len(FAMILIES)]
             hists.append(gen_history(ctx.rng, impl, fam))
@@ -855,7 +855,8 @@ def correspond(ctx, res):
         CH = 4000
         for a in range(0, len(hists), CH):
             chunk = hists[a:a + CH]
-            results, nl = run_histories(ctx, impl, chunk, [1 if tags[a + j] in INFO_ALWAYS else 4
+            always = INFO_ALWAYS if ctx.tier == "quick" else tuple(t for t in INFO_ALWAYS if t != "exhaustive")
+            results, nl = run_histories(ctx, impl, chunk, [1 if tags[a + j] in always else 4
                                                            for j in range(len(chunk))])
             total_lines += nl
             for j, rows in enumerate(results):
@@ -881,6 +882,7 @@ def correspond(ctx, res):
         # specification in lock order
         conc = concurrent(ctx, impl, res, ctx.n(8, 200))
         res.extra["concurrent_runs"] = conc
+        overtake(ctx, impl, res)
     finally:
         impl.close()
 
@@ -1051,6 +1053,76 @@ def concurrent(ctx, impl, res, runs):
         res.count("concurrent:lock handovers between threads", sum(1 for x, y in zip(order, order[1:]) if x != y))
         done += 1
     return done
+
+
+def overtake(ctx, impl, res):
+    """C10_lock_order_is_not_sampling_order on two REAL threads, deterministically: thread 0 is held between the
+    platform call (sample 100) and `wrap_numbers` until thread 1 (sample 105) has returned, goes on, and calls once
+    more (110). The real results must be the ones of the Lean lock model for that schedule (105 / 205, 215): the raw
+    sample is taken OUTSIDE the lock. If thread 1 cannot finish while thread 0 is held, sampling has moved under the
+    lock and the model's `sample` action is out of date (model drift)."""
+    impl.reset()
+    w = impl.width["net"]
+    tl = threading.local()
+    impl.tl = tl
+    sampled0, done1 = threading.Event(), threading.Event()
+    state = {"held": False, "blocked": False}
+
+    def hook(nm, raw):
+        if threading.current_thread().name == "c10-t0" and not state["held"]:
+            state["held"] = True
+            sampled0.set()
+            if not done1.wait(5):
+                state["blocked"] = True
+    impl.sample_hook = hook
+    outs = {0: [], 1: []}
+
+    def call(t, v):
+        tl.listing = [["eth0", True, [v] * w]]
+        try:
+            r = impl.ps.net_io_counters(pernic=True, nowrap=True)
+            outs[t].append({"kind": "dict", "raw": [[k, [int(x) for x in vv]] for k, vv in r.items()]})
+        except Exception as e:  # noqa: BLE001 - an exception is an observable
+            outs[t].append({"kind": "exc", "exc": type(e).__name__})
+
+    def t0():
+        call(0, 100)
+        call(0, 110)
+
+    def t1():
+        sampled0.wait(5)
+        call(1, 105)
+        done1.set()
+    try:
+        ths = [threading.Thread(target=t0, name="c10-t0"), threading.Thread(target=t1, name="c10-t1")]
+        for th in ths:
+            th.start()
+        for th in ths:
+            th.join(20)
+    finally:
+        impl.tl = None
+        impl.sample_hook = None
+    body = lambda t: [{"a": "acquire", "t": t}, {"a": "load", "t": t}, {"a": "store", "t": t}, {"a": "release", "t": t}]
+    smp = lambda t, v: {"a": "sample", "t": t, "name": "net", "raw": [["eth0", [v] * w]]}
+    acts = [smp(0, 100), smp(1, 105)] + body(1) + body(0) + [smp(0, 110)] + body(0)
+    m = ctx.driver().batch([{"op": "reset"}, {"op": "sched", "acts": acts}])[1]
+    hist = {"concurrent_schedule": acts, "how": "thread 0 held between its platform call and wrap_numbers"}
+    model = m["model"]
+    want = {0: [], 1: []}
+    for t, o in model.get("outs", []):
+        want[t].append(o)
+    if state["blocked"]:
+        res.disagree("model", hist, outs, model, None,
+                     note="thread 1 could not finish while thread 0 was held after its platform call: the raw sample is "
+                          "no longer taken outside the lock (the model's `sample` action is out of date)")
+    elif model.get("kind") != "sched" or outs != want:
+        res.disagree("model", hist, outs, model, m.get("spec"),
+                     note="overtaking between platform call and wrap_numbers: real threads differ from the Lean lock model")
+    inflated = outs[0][-1:] == [{"kind": "dict", "raw": [["eth0", [215] * w]]}]
+    res.case(("conc-overtake", acts), nontrivial=inflated)
+    res.count("family:concurrent_overtake")
+    res.extra["overtake"] = {"thread0": outs[0], "thread1": outs[1],
+                             "note": "kernel counter 100,105,110 never went backwards; lock order != sampling order"}
 
 
 def search(ctx, res, broken):
